@@ -72,7 +72,7 @@ def run_one(ctx, name, ips, conf, scen, seed):
             return out
         with mock.patch.object(xfrm.Xfrm, 'create_child_sa', classmethod(create)):
             try:
-                p.run(scripted(scen))
+                p.run(scripted(scen) if isinstance(scen, str) else [list(a) for a in scen])
                 p.drain()
             except LoopEscape as ex:
                 return [Failure('property', 'loop:escaped-exception', repr(ex.exc),
@@ -162,6 +162,12 @@ def plan(ctx):
     out.append(('child_pfs_modp_retry', None, {'child_dh': ('15', '14'), 'child_dh_b': ('14',)}, 'new_child'))
     out.append(('child_pfs_modp', None, {'child_dh': ('14',)}, 'crossing_children'))
     out.append(('child_pfs_ecp', None, {'child_dh': ('ecp256',)}, 'crossing_children'))
+    # a responder that rejects the KE group statelessly (RFC 7296 1.3) and accepts the retry - during an IKE_SA rekey and
+    # during CHILD_SA creation with PFS; afterwards the new SAs are used (props/hdl.py, sim/deviant.py). Both ends must
+    # still end with the same keys and mirror-image SAs.
+    for label, acts, conf, seed, skip in hdl.deviant_set(True, 0):
+        if label.endswith('/stateless_invalid_ke'):
+            out.append(('rfc_style_' + label.split('/')[1], None, conf, acts))
     for name, ips, conf in fam:
         scens = SCEN if (not ctx.quick() or name in ('default', 'sha512_ecp384_pfs')) else ['handshake', 'rekey_child',
                                                                                           'rekey_ike']
